@@ -38,14 +38,15 @@ ASSUMPTIONS = [
     '|dP|<=1e-6 P + 2e-2 Pa (Chemical.Tsat stops at 1e-2 Pa); scale/permutation |dT|<=1e-4 K, |dP|<=2e-6 P, '
     '|dy|<=2e-6 (two results each within the residual tolerance); normalisation 1e-12',
 ]
-REQUIRED_CELLS = {'quick': ['groupless-member', 'prelude=none', 'prelude=pkg', 'prelude=perm', 'prelude=pkg+perm', 'op=bubP', 'op=bubT', 'op=dewP', 'op=dewT', 'pkg=ideal', 'pkg=dortmund', 'pkg=dpcf',
+REQUIRED_CELLS = {'quick': ['T.wide', 'P>Pc', 'computed-P-below-box(judged)', 'stream:IDs=default', 'stream:IDs=all',
+                            'groupless-member', 'prelude=none', 'prelude=pkg', 'prelude=perm', 'prelude=pkg+perm', 'op=bubP', 'op=bubT', 'op=dewP', 'op=dewT', 'pkg=ideal', 'pkg=dortmund', 'pkg=dpcf',
                             'z=zeros', 'z=trace', 'z=vertex', 'npos=1', 'npos>=2', 'order:judged',
                             'rt:T-P-T', 'rt:P-T-P'],
                   'thorough': []}
 
 POOL = ['Water', 'Ethanol', 'Methanol', 'Propanol', 'Acetone', 'Hexane', 'Benzene', 'Toluene', 'Pentane', 'Heptane',
         'AceticAcid', 'Butanol', 'EthylAcetate', 'Chloroform', 'Cyclohexane', 'Octane', '2-Propanol', 'MEK',
-        'DiethylEther', 'Acetonitrile']
+        'DiethylEther', 'Acetonitrile', 'Decane', 'Dodecane', 'Octanol']
 T_LO, T_HI = 260.0, 480.0
 P_LO, P_HI = 5e3, 3e6
 OPS = ('dewT', 'dewP', 'bubT', 'bubP')
@@ -164,6 +165,9 @@ class System:
         self.Pa = max([P_LO] + [float(c.Psat(self.Tlo)) for c in present])
         self.Pb = min([P_HI] + [float(c.Psat(self.Thi)) for c in present])
         self._gap = None
+        self.wide = False
+        self.sc = False
+        self.fb = False
         self._g3 = None
         self._far = None
         lo_hull = min(p.Tmin for p in Psats) + 10.0
@@ -189,7 +193,11 @@ class System:
             r += f',gap={self.gap()}'
         else:
             r += f',g3={self.g3()},far={self.far()}'
-        return r + f',xtrap={self.xtrap}'
+        r += f',xtrap={self.xtrap}'
+        if self.wide: r += ',wide=1'      # T drawn anywhere in the T box: the computed P may lie below 5e3 Pa
+        if self.sc: r += ',sc=1'          # single chemical, P above its critical pressure
+        if dew and self.fb: r += ',fb=1'  # dew pressure with an ideal-solution guess below 10 Pa (bracketed fallback)
+        return r
 
     def far(self):
         """1 when, at the cold end of the T box, the bubble pressure of the package's liquid model exceeds the
@@ -263,8 +271,8 @@ def draw_system(ch, nmin=1, nmax=5, ctx=None):
     names = ch.subset('names', POOL, min_size=n, max_size=n)
     # a volatile chemical WITHOUT Dortmund groups (its activity coefficient is exactly 1 in every package) at a drawn
     # position of the tuple: the gather/scatter between the full tuple and the group-bearing sub-tuple matters here
-    gl = ch.choice('groupless', [None, 'Furan', None, 'HCN', None])
-    if gl is not None and n >= 2:
+    gl = ch.choice('groupless', [None, 'Furan', None, 'HCN', None, 'Dodecane', 'Octanol'])   # + two heavy chemicals
+    if gl is not None and n >= 2 and gl not in names:
         names[ch.index('groupless.pos', n)] = gl
         if ctx is not None: ctx.cell('groupless-member')
     z, zkind = draw_z(ch, len(names))
@@ -283,12 +291,27 @@ def draw_system(ch, nmin=1, nmax=5, ctx=None):
 
 
 def draw_T(ch, s, ctx):
+    """T specification.  Two modes: inside the window where every present chemical's pure Psat is in [5e3,3e6] Pa
+    (the computed pressure of an ideal mixture is then inside the P box), or (`T.wide`) anywhere in the T box: the
+    temperature is in the quantified range and the call is in-domain, only the computed pressure may fall below
+    5e3 Pa (heavy chemical, low T)."""
+    if ch.choice('T.wide', [False, False, True]):
+        s.wide = True
+        ctx.cell('T.wide')
+        return s.Tlo + (s.Thi - s.Tlo) * ch.float('T.u', 0.0, 1.0) ** 3      # biased to the cold end (low pressures)
     if not (s.Ta < s.Tb):
         ctx.reject('empty T window')
     return s.Ta + (s.Tb - s.Ta) * ch.float('T.u', 0.0, 1.0)
 
 
 def draw_P(ch, s, ctx):
+    if s.npos == 1:
+        Pc = float(s.chems[s.pos[0]].Pc)
+        if Pc < P_HI and ch.choice('P.sc', [False, True]):
+            # a specified pressure inside [5e3,3e6] Pa but above the critical pressure of the only chemical present
+            s.sc = True
+            ctx.cell('P>Pc')
+            return Pc * (P_HI / Pc) ** max(ch.float('P.u', 0.0, 1.0), 1e-3)
     if not (s.Pa < s.Pb):
         ctx.reject('empty P window')
     if s.Pa <= 101325.0 <= s.Pb and ch.int('P.atm', 0, 11) == 11:
@@ -366,6 +389,14 @@ def solve(ctx, s, op, spec, z=None, site=None):
     elif op == 'bubT': r = ctx.call(site, s.BP, zin, P=spec, region=region); w = r.y
     else:
         monitored = s.pkg != 'ideal' and s.npos > 1
+        if monitored and op == 'dewP':
+            zz = zin / zin.sum()
+            if 1.0 / sum(zz[i] / float(s.chems[i].Psat(spec)) for i in s.pos) < 10.0:
+                # solve_Px starts its secant at P_guess and P_guess - 10: the second point is non-positive,
+                # InfeasibleRegion is raised and the bracketed IQ_interpolation fallback does the work
+                ctx.cell('dewP:ideal-guess<10Pa(bracketed fallback)')
+                s.fb = True
+                region = s.region(True)
         mon = InnerMonitor()
         try:
             if monitored:
@@ -398,7 +429,12 @@ def in_box(s, T, P):
 
 
 def require_box(ctx, s, T, P):
-    """Used by the relational checks: a result outside the box is judged by the point check only."""
+    """Used by the relational checks: a result outside the box is judged by the point check only.  In wide mode
+    (T specified anywhere in the T box) a computed pressure below the box is still the result of an in-domain call."""
+    if s.wide and s.Tlo - 1e-9 <= T <= s.Thi + 1e-9 and P > 0:
+        if P < P_LO: ctx.cell('computed-P-below-box(judged)')
+        elif P > P_HI: ctx.cell('computed-P-above-box(judged)')
+        return
     if not in_box(s, T, P):
         ctx.cell('outside-box')
         ctx.reject('computed T/P outside the quantified box')
@@ -419,6 +455,9 @@ def judge_box(ctx, s, op, T, P, site):
     box by construction of the T/P windows; for a non-ideal bubble temperature the box must contain the answer
     when the equation changes sign across it.  Anything else outside the box is outside the quantifier."""
     if in_box(s, T, P):
+        return
+    if s.wide and P > 0 and s.Tlo - 1e-9 <= T <= s.Thi + 1e-9:
+        ctx.cell('computed-P-below-box(judged)' if P < P_LO else 'computed-P-above-box(judged)')
         return
     region = s.region(is_dew(op))
     if s.pkg == 'ideal' or (op == 'bubT' and bubble_root_in_box(s, P)):
@@ -453,9 +492,14 @@ def residual(s, op, T, P, w):
     return abs(tot - 1.0), float(np.abs(implied / tot - w).max()), implied
 
 
+def res_tol(P):
+    """1e-6 inside the P box; below it the solvers' absolute pressure tolerance (P_tol = 1e-3 Pa) dominates."""
+    return RES_TOL if P >= P_LO else RES_TOL + min(4e-3 / P, 5e-2)
+
+
 def dew_converged(s, op, T, P, w):
     r, d, _ = residual(s, op, T, P, w)
-    return r <= RES_TOL and d <= RES_TOL
+    return r <= res_tol(P) and d <= res_tol(P)
 
 
 def guess_tag(s, P):
@@ -491,9 +535,11 @@ def check_point(ctx, s, op, T, P, w, site):
         ctx.fail(f'{site}|{region}|absent-nonzero', f'fraction of an absent chemical is {w[s.z == 0].tolist()}')
     res, dev, implied = residual(s, op, T, P, w)
     tag = f'{op}:gap' if (is_dew(op) and s.gap()) else op
-    if res <= RES_TOL: ctx.metric_max(f'{tag}:residual(passing)', res)
+    tol = res_tol(P)
+    if P < P_LO: tag += ':lowP'
+    if res <= tol: ctx.metric_max(f'{tag}:residual(passing)', res)
     else: ctx.metric_max(f'{tag}:residual(failing)', res)
-    if not res <= RES_TOL:
+    if not res <= tol:
         if is_dew(op): region += getattr(s, 'inner', '')
         if op == 'dewT': region += ',' + guess_tag(s, P)
         # minor: 1e-6 < |sum-1| <= 1e-4 (noise of an unconverged inner iteration); gross: anything larger
@@ -501,7 +547,7 @@ def check_point(ctx, s, op, T, P, w, site):
         ctx.fail(f'{site}|{region}|{kind}', f'sum of implied fractions = {1 + res!r} or {1 - res!r} at T={T!r} P={P!r} '
                                             f'{s.names} z={s.z.tolist()}')
     ctx.metric_max(f'{tag}:fraction_dev', dev)
-    if not dev <= RES_TOL:
+    if not dev <= tol:
         ctx.fail(f'{site}|{region}|fractions', f'returned {w.tolist()} implied {(implied / implied.sum()).tolist()}')
 
 
@@ -595,9 +641,11 @@ def prop_roundtrip(ch, ctx):
     region = s.region(kind == 'dew')
     if first == 'T':
         T0 = draw_T(ch, s, ctx)
+        region = s.region(kind == 'dew')
         _, P1, w1 = solve(ctx, s, opP, T0, site='rt.' + opP)
         _reject_bad_dew(ctx, s, opP, T0, P1, w1)
-        require_box(ctx, s, T0, P1)
+        if not in_box(s, T0, P1):      # P1 becomes a specified pressure: it must be inside the P box
+            ctx.cell('outside-box'); ctx.reject('computed T/P outside the quantified box')
         T2, _, w2 = solve(ctx, s, opT, P1, site='rt.' + opT)
         _reject_bad_dew(ctx, s, opT, T2, P1, w2)
         require_box(ctx, s, T2, P1)
@@ -608,6 +656,7 @@ def prop_roundtrip(ch, ctx):
             ctx.fail(f'rt.{kind}.TPT|{region}|mismatch', f'T={T0!r} -> P={P1!r} -> T={T2!r} {s.names} z={s.z.tolist()}')
     else:
         P0 = draw_P(ch, s, ctx)
+        region = s.region(kind == 'dew')
         T1, _, w1 = solve(ctx, s, opT, P0, site='rt.' + opT)
         _reject_bad_dew(ctx, s, opT, T1, P0, w1)
         require_box(ctx, s, T1, P0)
@@ -637,12 +686,12 @@ def prop_order(ch, ctx):
     zn = s.z / s.z.sum()
     if fixed == 'T':
         T = draw_T(ch, s, ctx)
+        region = s.region(True)
         _, Pb, y = solve(ctx, s, 'bubP', T, site='order.bubP')
         _, Pd, x = solve(ctx, s, 'dewP', T, site='order.dewP')
         _reject_bad_dew(ctx, s, 'bubP', T, Pb, y)
         _reject_bad_dew(ctx, s, 'dewP', T, Pd, x)
-        if not (in_box(s, T, Pb) and in_box(s, T, Pd)):
-            ctx.cell('outside-box'); ctx.reject('computed T/P outside the quantified box')
+        require_box(ctx, s, T, Pb); require_box(ctx, s, T, Pd)
         if s.npos > 1 and not liquid_stable(s, x, T):
             ctx.cell('order:unstable-dew-liquid'); ctx.reject('dew liquid unstable in the one-liquid model')
         ctx.cell('order:judged')
@@ -654,12 +703,15 @@ def prop_order(ch, ctx):
             ctx.fail(f'order.P|{region}|single-differs', f'P_dew={Pd!r} P_bub={Pb!r}')
     else:
         P = draw_P(ch, s, ctx)
+        region = s.region(True)
         Tb, _, y = solve(ctx, s, 'bubT', P, site='order.bubT')
         Td, _, x = solve(ctx, s, 'dewT', P, site='order.dewT')
         _reject_bad_dew(ctx, s, 'bubT', Tb, P, y)
         _reject_bad_dew(ctx, s, 'dewT', Td, P, x)
-        if not (in_box(s, Tb, P) and in_box(s, Td, P)):
-            ctx.cell('outside-box'); ctx.reject('computed T/P outside the quantified box')
+        if not s.sc:
+            # above the critical pressure of a single chemical both solvers document T = Tc (outside the T box); the
+            # ordering clause is still judged there
+            require_box(ctx, s, Tb, P); require_box(ctx, s, Td, P)
         if s.npos > 1 and not liquid_stable(s, x, Td):
             ctx.cell('order:unstable-dew-liquid'); ctx.reject('dew liquid unstable in the one-liquid model')
         ctx.cell('order:judged')
@@ -675,8 +727,8 @@ def prop_order(ch, ctx):
 
 def compare(ctx, site, region, a, b, what):
     (T1, P1, w1), (T2, P2, w2) = a, b
-    dT = abs(T1 - T2); dP = abs(P1 - P2) / P1; dw = float(np.abs(w1 - w2).max())
-    ok = dT <= 1e-4 and dP <= 2e-6 and dw <= 2e-6
+    dT = abs(T1 - T2); dP = max(0.0, abs(P1 - P2) - 4e-3) / P1; dw = float(np.abs(w1 - w2).max())
+    ok = dT <= 1e-4 and dP <= 2e-6 and dw <= 2e-6 + (min(8e-3 / P1, 5e-2) if P1 < P_LO else 0.0)
     if ok:
         ctx.metric_max(site + ':dT', dT); ctx.metric_max(site + ':dP_rel', dP); ctx.metric_max(site + ':dw', dw)
     else:
@@ -724,10 +776,68 @@ def prop_perm(ch, ctx):
         ctx.nontriv(['perm', op, s.key(), p])
 
 
+def prop_stream(ch, ctx):
+    """Stream helpers (bubble_point_at_T/P, dew_point_at_T/P, get_bubble_point, get_dew_point) with explicit T/P/IDs
+    different from the stream's own condition give the result of the BubblePoint/DewPoint object for the same
+    chemicals and the same normalised composition."""
+    s = draw_system(ch, ctx=ctx)
+    op = ch.choice('op', OPS)
+    spec = draw_T(ch, s, ctx) if op in ('bubP', 'dewP') else draw_P(ch, s, ctx)
+    k = ch.logfloat('flow.k', -2, 3)
+    own_T = s.Tlo + (s.Thi - s.Tlo) * ch.float('stream.T', 0.0, 1.0)
+    own_P = P_LO * (P_HI / P_LO) ** ch.float('stream.P', 0.0, 1.0)
+    ids = ch.choice('IDs', ['present', 'all', 'default', 'present'])
+    order = ch.permutation('IDs.order', s.n)
+    cells(ctx, s, op)
+    ctx.cell('stream:IDs=' + ids)
+    region = s.region(is_dew(op)) + f',ids={ids}'
+    tmo.settings.set_thermo(s.th)
+    flows = {s.names[i]: float(s.z[i] * k) for i in range(s.n) if s.z[i] > 0}
+    stream = ctx.call('stream.new', tmo.Stream, None, thermo=s.th, T=own_T, P=own_P, phase='l', region=region, **flows)
+    if ids == 'default':
+        IDs = None
+        sel = [i for i in range(s.n) if s.z[i] > 0]            # vle_chemicals: present chemicals in package order
+    else:
+        sel = [i for i in order if ids == 'all' or s.z[i] > 0]
+        IDs = tuple(s.names[i] for i in sel)
+    chems = tuple(s.chems[i] for i in sel)
+    fl = np.array([s.z[i] * k for i in sel], float)
+    zref = fl / fl.sum()
+    obj = ctx.call('stream.get', stream.get_dew_point if is_dew(op) else stream.get_bubble_point, IDs, region=region)
+    want_cls = eq.DewPoint if is_dew(op) else eq.BubblePoint
+    if type(obj) is not want_cls or tuple(obj.IDs) != tuple(c.ID for c in chems):
+        ctx.fail(f'stream.get|{region}|mismatch', f'{type(obj).__name__} for {obj.IDs}, expected {want_cls.__name__} for {[c.ID for c in chems]}')
+    ref_obj = want_cls(chems, s.th)
+    kw = {'T': spec} if op in ('bubP', 'dewP') else {'P': spec}
+    try:
+        ref = ref_obj(zref.copy(), **kw)
+    except Exception:
+        ctx.reject('reference BubblePoint/DewPoint call raised (judged by the point check)')
+    helper = {'bubP': stream.bubble_point_at_T, 'bubT': stream.bubble_point_at_P,
+              'dewP': stream.dew_point_at_T, 'dewT': stream.dew_point_at_P}[op]
+    site = 'stream.' + helper.__name__
+    got = ctx.call(site, helper, spec, IDs, region=region)
+    if tuple(got.IDs) != tuple(ref.IDs):
+        ctx.fail(f'{site}|{region}|ids', f'result for {got.IDs}, expected {ref.IDs}')
+    if (got.T if 'T' in kw else got.P) != spec:
+        ctx.fail(f'{site}|{region}|spec-echo', f'explicit {kw} but the result is at T={got.T!r} P={got.P!r} '
+                                               f'(stream at T={own_T!r} P={own_P!r})')
+    wg = np.array(got.x if is_dew(op) else got.y, float); wr = np.array(ref.x if is_dew(op) else ref.y, float)
+    if not (float(got.T) == float(ref.T) and float(got.P) == float(ref.P) and np.array_equal(wg, wr)
+            and np.array_equal(np.asarray(got.z, float), zref)):
+        ctx.fail(f'{site}|{region}|mismatch', f'helper: T={got.T!r} P={got.P!r} z={np.asarray(got.z).tolist()} w={wg.tolist()}; '
+                                              f'object: T={ref.T!r} P={ref.P!r} z={zref.tolist()} w={wr.tolist()}')
+    if stream.T != own_T or stream.P != own_P:
+        ctx.fail(f'{site}|{region}|stream-modified', f'stream condition changed to T={stream.T!r} P={stream.P!r}')
+    if len(sel) >= 2:
+        ctx.nontriv(['stream', op, ids, s.key(), order])
+
+
 PROPS = {
     'point': (prop_point, 3200, 120000),
     'roundtrip': (prop_roundtrip, 1200, 40000),
     'order': (prop_order, 1200, 40000),
     'scale': (prop_scale, 800, 25000),
     'perm': (prop_perm, 1000, 35000),
+    'stream': (prop_stream, 500, 15000),
 }
